@@ -23,7 +23,6 @@ from __future__ import annotations
 
 import collections
 import itertools
-import math
 
 import numpy as np
 import sympy
@@ -45,7 +44,8 @@ from mc.ref import interp, embed as E
 PROPERTY = "C06"
 LEVEL = "exploration"
 RULE = ("circuits = every sequence (length<=2 over the full 52-letter alphabet; length 3 (quick) / 3..4 (thorough) over a "
-        "per-transformer relevant sub-alphabet of <=12 letters; thorough adds length 3 over a 32-letter wide alphabet) of gates, "
+        "per-transformer relevant sub-alphabet of <=12 letters incl. pass-specific extra letters; thorough adds length 3 over a "
+        "32-letter wide alphabet) of gates, "
         "measurements, classically controlled ops, resets, tagged ops, CircuitOperations, parameterized gates, global phase, "
         "empty moments on qubits a,b,c x layout (earliest-packed / one-op-per-moment) x every transformer configuration x "
         "deep in {False,True}; randomized transformers: ALL scripted-PRNG paths; a case is non-trivial when the transformer "
@@ -95,7 +95,7 @@ def letters(seed):
     g3 = core.generic(seed, 3)
     sub_ab = cirq.CircuitOperation(cirq.FrozenCircuit(cirq.H(a), cirq.CZ(a, b), cirq.Y(b).with_tags(IGN), cirq.Z(a) ** g))
     sub_b2 = cirq.CircuitOperation(cirq.FrozenCircuit(cirq.X(b) ** 0.5, cirq.Z(b) ** g2), repetitions=2)
-    sub_a_ign = cirq.CircuitOperation(cirq.FrozenCircuit(cirq.X(a) ** g, cirq.Z(a) ** 0.5)).with_tags(IGN)
+    sub_a_ign = cirq.CircuitOperation(cirq.FrozenCircuit(cirq.S(a), cirq.X(a), cirq.Z(a) ** g)).with_tags(IGN)
     sub_c_meas = cirq.CircuitOperation(cirq.FrozenCircuit(cirq.H(c), cirq.measure(c, key="s")))
     sub_mapped = cirq.CircuitOperation(cirq.FrozenCircuit(cirq.Y(b) ** 0.5, cirq.X(b))).with_tags(MAPPED_CIRCUIT_OP_TAG)
     k_sym = sympy.Symbol("k")
@@ -129,7 +129,7 @@ def letters(seed):
         ("CZ(a,b)[ignore]", cirq.CZ(a, b).with_tags(IGN), 1), ("Y(a)[nocompile]", cirq.Y(a).with_tags("nocompile"), 1),
         # ---- sub-circuits
         ("SUB[H(a),CZ(a,b),Y(b)[ignore],Z(a)^g]", sub_ab, 1), ("SUBx2[X(b)^.5,Z(b)^g2]", sub_b2, 1),
-        ("SUB[X(a)^g,S(a)][ignore]", sub_a_ign, 1), ("SUB[H(c),M(c;s)]", sub_c_meas, 1),
+        ("SUB[S(a),X(a),Z(a)^g][ignore]", sub_a_ign, 1), ("SUB[H(c),M(c;s)]", sub_c_meas, 1),
         ("SUB[Y(b)^.5,X(b)][mapped]", sub_mapped, 1),
         # ---- parameterized, misc
         ("X(a)^s", cirq.X(a) ** S_SYM, 1),
@@ -138,6 +138,8 @@ def letters(seed):
         # ---- extra letters: only used by relevant sub-alphabets
         ("Y(b)", cirq.Y(b), 0), ("X(b)^.25", cirq.X(b) ** 0.25, 0), ("SWAP(b,c)", cirq.SWAP(b, c), 0),
         ("SYC(a,b)", cirq_google.SYC(a, b), 0), ("Z(b)^1e-4", cirq.Z(b) ** 1e-4, 0), ("Z(b)^1e-6", cirq.Z(b) ** 1e-6, 0),
+        ("Z(b)^1e-3", cirq.Z(b) ** 1e-3, 0),
+        ("SUB[H(b),Z(b)^1e-9]", cirq.CircuitOperation(cirq.FrozenCircuit(cirq.H(b), cirq.Z(b) ** 1e-9)), 0),
         ("M(b;t)[ignore]", cirq.measure(b, key="t").with_tags(IGN), 0), ("Z(b)^s2", cirq.Z(b) ** S2_SYM, 0),
         ("X(c)?(k>1)", cirq.X(c).with_classical_controls(sympy.Gt(k_sym, 1)), 0),
         ("ISWAP(b,c)", cirq.ISWAP(b, c), 0), ("SQRT_ISWAP(b,c)", cirq.SQRT_ISWAP(b, c), 0), ("ZZ(b,c)", cirq.ZZ(b, c), 0),
@@ -544,7 +546,7 @@ R_ALIGN = ["X(a)", "CZ(a,b)", "H(b)", "M(a;m)", "M(b;m)", "X(b)?m", "M(a,b;k,inv
 R_STRAT = ["X(a)", "Z(b)", "CZ(a,b)", "CZ(b,c)", "rx(g)(c)", "M(a;m)", "M(b;m)", "X(b)?m", "X(a)[ignore]", "H(b)[ignore]", "GP(1j)",
            "SUB[H(a),CZ(a,b),Y(b)[ignore],Z(a)^g]"]
 R_EXPAND = ["H(a)", "CNOT(a,b)", "SWAP(a,b)", "ISWAP(a,b)", "CZ(a,b)[ignore]", "SUB[H(a),CZ(a,b),Y(b)[ignore],Z(a)^g]",
-            "SUBx2[X(b)^.5,Z(b)^g2]", "SUB[X(a)^g,S(a)][ignore]", "M(a;m)", "X(b)?m", "PM(X(a);p)", "FSim(g,g2)(b,c)"]
+            "SUBx2[X(b)^.5,Z(b)^g2]", "SUB[S(a),X(a),Z(a)^g][ignore]", "M(a;m)", "X(b)?m", "PM(X(a);p)", "FSim(g,g2)(b,c)"]
 R_EJZ = ["Z(a)^g", "T(a)", "Z(b)", "W(a;p=g)", "PhXZ(a;x=g,z=g2,a=.25)", "CZ(a,b)", "SWAP(a,b)", "ISWAP(a,b)", "FSim(pi/2,g)(a,b)",
          "SQRT_ISWAP(a,b)", "M(a;m)", "X(a)[ignore]"]
 R_EJZ_P = ["Z(a)^g", "Z(b)^s2", "X(a)^s", "W(b;p=g2)^g", "PhXZ(a;x=g,z=g2,a=.25)", "CZ(a,b)", "SWAP(a,b)", "H(a)", "CNOT(a,b)",
@@ -559,10 +561,10 @@ R_M2 = ["H(a)", "Z(b)", "rx(g)(c)", "CZ(a,b)", "CZ(b,c)", "ISWAP(a,b)", "X(a)[ig
         "SUB[H(a),CZ(a,b),Y(b)[ignore],Z(a)^g]", "M(a;m)", "M(b;m)", "X(b)?m"]
 R_MAP = ["X(a)", "X(b)", "CNOT(a,b)", "SWAP(a,b)", "CZ(a,b)", "H(a)", "X(a)[ignore]", "SUB[Y(b)^.5,X(b)][mapped]",
          "SUBx2[X(b)^.5,Z(b)^g2]", "M(a;m)", "X(b)?m", "Moment()"]
-R_UNROLL = ["SUB[H(a),CZ(a,b),Y(b)[ignore],Z(a)^g]", "SUBx2[X(b)^.5,Z(b)^g2]", "SUB[X(a)^g,S(a)][ignore]", "SUB[H(c),M(c;s)]",
+R_UNROLL = ["SUB[H(a),CZ(a,b),Y(b)[ignore],Z(a)^g]", "SUBx2[X(b)^.5,Z(b)^g2]", "SUB[S(a),X(a),Z(a)^g][ignore]", "SUB[H(c),M(c;s)]",
             "SUB[Y(b)^.5,X(b)][mapped]", "X(a)", "CZ(a,b)", "CZ(b,c)", "H(b)", "M(b;m)", "X(b)?m", "Moment()"]
-R_DROP = ["Z(a)^1e-9", "Z(b)^1e-4", "Z(b)^1e-6", "I(a)", "Wait(a)", "GP(1j)", "H(a)", "CZ(a,b)", "M(a;m)", "Moment()",
-          "X(a)[ignore]", "SUBx2[X(b)^.5,Z(b)^g2]"]
+R_DROP = ["Z(a)^1e-9", "Z(b)^1e-4", "Z(b)^1e-6", "I(a)", "Z(b)^1e-3", "GP(1j)", "H(a)", "CZ(a,b)", "M(a;m)", "Moment()",
+          "X(a)[ignore]", "SUB[H(b),Z(b)^1e-9]"]
 R_DIAG = ["Z(a)", "Z(b)", "T(a)", "CZ(a,b)", "CZ(b,c)", "H(a)", "M(a;m)", "M(b;m)", "M(a,b;k,inv=10)", "PM(X(a);p)", "SUB[H(c),M(c;s)]",
           "CZ(a,b)[ignore]"]
 R_MEAS = ["H(a)", "X(b)", "CNOT(a,b)", "M(a;m)", "M(b;m)", "M(a,b;k,inv=10)", "M(c;n,inv)", "X(b)?m", "Z(c)?k", "X(c)?(k>1)", "R(a)",
@@ -782,14 +784,13 @@ def check_output(cfg, inp: Input, deep, out, counters):
     sig = dict(transformer=cfg.name.split("[")[0], config=cfg.name, deep=deep)
     # (v) argument unmodified
     if not inp.untouched():
+        _INCACHE.pop((inp.seq, inp.layout), None)  # the cached input is spoiled
         return bad("input circuit was modified by the call\n" + _fmt(inp, cfg, deep, None, f"now: {inp.circuit!r}"), kind="input_modified", **sig)
     sweep = None
     if cfg.oracle in ("sweep", "sweep_pair"):
         out, sweep = out
     if not isinstance(out, cirq.AbstractCircuit):
         return bad(f"returned a {type(out).__name__}, not a circuit\n" + _fmt(inp, cfg, deep), kind="return_type", **sig)
-    if out is inp.circuit and False:
-        pass
     # (iii) ignored operations
     if cfg.ign != "none" and cfg.ctx == "std":
         want_ign, want_deep = inp.ign, inp.deep_ign
@@ -860,10 +861,6 @@ def o_dephase(cfg, inp, deep, out, out_flat, sweep):
         t_out = interp.total_rho(Meaning(ops, QS).dist(_PSI))
         if not np.allclose(t_in, t_out, atol=1e-7):
             return f"final density matrix differs from the input circuit's (max deviation {np.abs(t_in - t_out).max():.3g})"
-    for op in out_flat:
-        if isinstance(op.gate, cirq.MeasurementGate) and IGN not in op.tags and (deep or True):
-            # measurements nested in un-entered sub-circuits never reach here when deep=False (they stay inside the wrapper)
-            pass
     return None
 
 
